@@ -415,7 +415,7 @@ def check_definition(inp):
 
 
 def gen_definition(rng, tier, shard, nshards, boost):
-    return _gen_pairs(rng, tier, shard, nshards, boost, 4000, 60000, False)
+    return _gen_pairs(rng, tier, shard, nshards, boost, 2000, 60000, False)
 
 
 CHECKERS = {"chord.definition": check_definition, "chord.lattice": check_lattice, "chord.vocab": check_vocab, "chord.majmin_inv": check_majmin_inv,
